@@ -57,7 +57,7 @@ def applicable(kind, c):
     return kind == "lru" or c["op"] not in ("setmax", "hitsfor")
 
 
-def run_once(program, policy_desc, line_level):
+def run_once(program, policy_desc, line_level, opcode_level=False):
     """One execution.  policy_desc = ("preempt", priority, {step: tid}) | ("random", seed)."""
     kind = program["kind"]
     clock = c17_cache.VClock()
@@ -90,7 +90,9 @@ def run_once(program, policy_desc, line_level):
             elif k in ("crash", "deadlock", "budget"):
                 ev.append({"op": k, "th": "t%d" % tid, "exc": str(info.get("exc", ""))[:80]})
 
-        s = sched.Scheduler(policy, max_steps=4000, trace_codes=trace_codes() if line_level else (), observer=observer)
+        s = sched.Scheduler(policy, max_steps=20000 if opcode_level else 4000,
+                            trace_codes=trace_codes() if (line_level or opcode_level) else (), observer=observer,
+                            opcode_level=opcode_level)
         cache.lock = s.shim.Lock()
 
         def body(th):
@@ -123,7 +125,8 @@ def run_once(program, policy_desc, line_level):
 def run_job(job):
     """job = (program, tid, k (preemption bound), line_level, nrandom, seed).  Returns the list of
     DISTINCT traces over the base schedule, every schedule with <= k deviations, and random ones."""
-    program, tid, k, line_level, nrandom, seed = job
+    program, tid, k, line_level, nrandom, seed = job[:6]
+    opcode_level = bool(job[6]) if len(job) > 6 else False
     threads = sorted(program["prog"])
     out, seen = [], set()
     nruns = 0
@@ -142,9 +145,9 @@ def run_job(job):
             for depth in range(k + 1):
                 nxt = []
                 for devs, last in frontier:
-                    ev, res = run_once(program, ("preempt", prio, devs), line_level)
+                    ev, res = run_once(program, ("preempt", prio, devs), line_level, opcode_level)
                     nruns += 1
-                    add(ev, {"prio": prio, "devs": {str(a): b for a, b in devs.items()}, "line": line_level})
+                    add(ev, {"prio": prio, "devs": {str(a): b for a, b in devs.items()}, "line": line_level, "opcode": opcode_level})
                     if depth < k:
                         for (i, t) in sched.deviations_of(res, after=last):
                             d2 = dict(devs)
@@ -152,9 +155,9 @@ def run_job(job):
                             nxt.append((d2, i))
                 frontier = nxt
         for r in range(nrandom):
-            ev, res = run_once(program, ("random", seed * 1000 + r), line_level)
+            ev, res = run_once(program, ("random", seed * 1000 + r), line_level, opcode_level)
             nruns += 1
-            add(ev, {"random": seed * 1000 + r, "line": line_level})
+            add(ev, {"random": seed * 1000 + r, "line": line_level, "opcode": opcode_level})
     except Exception as ex:  # driver failure -> an event nobody matches
         out.append({"tid": "%s.err" % tid, "kind": program["kind"], "max": program["max"], "threads": ["t0"] + threads,
                     "ev": [{"op": "driver-error", "exc": repr(ex)[:200]}], "sched": {}})
